@@ -154,7 +154,23 @@ func (g *Git) RunRaw(stdin []byte, args ...string) ([]byte, error) {
 	return out.Bytes(), nil
 }
 
-var gitCommitCounter int
+// Refs lists all references (name -> hex ID).
+func (g *Git) Refs() map[string]string {
+	out := map[string]string{}
+	txt, err := g.Run(nil, nil, "for-each-ref", "--format=%(refname) %(objectname)")
+	if err != nil {
+		return out
+	}
+	for _, l := range strings.Split(txt, "\n") {
+		if f := strings.Fields(l); len(f) == 2 {
+			out[f[0]] = f[1]
+		}
+	}
+	return out
+}
+
+// RefLister is implemented by both back ends.
+type RefLister interface{ Refs() map[string]string }
 
 func (g *Git) CommitTree(tree githash.Hash, parents []githash.Hash, message string, signer *keys.Actor) (githash.Hash, error) {
 	args := []string{}
